@@ -88,4 +88,22 @@ PROPS = {
             "routing of an accepted rule is not asserted for paths that a base rule also matches",
         ],
     },
+    "C19": {
+        "pkg": "c19",
+        "stages": [{"run": "^TestProp", "quick": (1200, 4), "thorough": (15000, 16)}],
+        "technique": "property-based testing (rapid): selector sets vs a reference cover relation on a universe of prefix-sharing names; annotation-vs-service-config differential; healthz against a model of the health server",
+        "level_text": "Generated-input search: (1) for every selector set and each of 18 methods with string-prefix-sharing names, a rule is bound iff the "
+                      "reference cover relation holds; (2) the same rule as annotation and as config yields identical outcomes on a generated request set; "
+                      "(3) /v1/healthz answers follow a model of statuses. Exploration only.",
+        "level_note": "Selectors are syntactically valid; each method is registered alone on its own mux so that wildcard rules covering several registered methods (a legitimate duplicate) cannot hide the binding relation.",
+        "rule": "three rapid properties: selectors (1-6 selectors from exact names, wildcards at every depth, service names without wildcard, "
+                "wildcards below a method, string-prefix near misses, unrelated packages; 18 methods x each rule probed); equivalence (1-2 generated "
+                "bindings with body/response_body, instantiated/near-miss requests with query and JSON bodies, compared annotation vs config); healthz "
+                "(0-4 services with arbitrary UTF-8 names and statuses, queried escaped, plus unknown and absent service). Non-trivial = selector set "
+                "with a wildcard or a non-covering selector / rule with variable or body that dispatched / healthz with >=1 named service; distinct = the selector "
+                "list / binding shapes / (names,statuses).",
+        "assumptions": [
+            "selectors like 'a.*.b' (option-construction panic) and empty selectors are outside the property's domain",
+        ],
+    },
 }
